@@ -198,7 +198,10 @@ impl<'a, T: 'a + IO> Interpreter<'a, T> {
     }
 
     fn interpret_print_no_eol(&mut self, expr: parser::Expr) -> Result<(), PakhiErr> {
-        match self.interpret_expr(expr)? {
+        let data = self.interpret_expr(expr)?;
+        // nothing should be printed if some nested element can't be printed
+        if let DataType::List(_) | DataType::NamelessRecord(_) = data { self.check_printable(&data)?; }
+        match data {
             DataType::Num(n) => {
                 let num = self.to_bn_num(n)?;
                 self.io.print( num.as_str())
@@ -236,6 +239,29 @@ impl<'a, T: 'a + IO> Interpreter<'a, T> {
             },
         }
         self.current += 1;
+        Ok(())
+    }
+
+    // Checks if print_datatype will be able to print data, without printing anything
+    fn check_printable(&self, data: &DataType) -> Result<(), PakhiErr> {
+        match data {
+            DataType::Num(n) => { self.to_bn_num(n.clone())?; },
+            DataType::Bool(_) | DataType::String(_) => {},
+            DataType::List(arr_i) => {
+                for elem in self.lists[arr_i.clone()].iter() {
+                    self.check_printable(elem)?;
+                }
+            },
+            DataType::NamelessRecord(record_i) => {
+                for (_, v) in self.nameless_records[record_i.clone()].iter() {
+                    self.check_printable(v)?;
+                }
+            },
+            _ => {
+                let (line, file_name) = self.extract_err_meta_stmt(self.current)?;
+                return Err(RuntimeError(line, file_name, "দেখাও doesn't support this datatype".to_string()));
+            },
+        }
         Ok(())
     }
 
@@ -280,7 +306,10 @@ impl<'a, T: 'a + IO> Interpreter<'a, T> {
     }
 
     fn interpret_print_stmt(&mut self, expr: parser::Expr) -> Result<(), PakhiErr> {
-        match self.interpret_expr(expr)? {
+        let data = self.interpret_expr(expr)?;
+        // nothing should be printed if some nested element can't be printed
+        if let DataType::List(_) | DataType::NamelessRecord(_) = data { self.check_printable(&data)?; }
+        match data {
             DataType::Num(n) => {
                 let num = self.to_bn_num(n)?;
                 self.io.println(num.as_str())
